@@ -163,6 +163,12 @@ func (node *DateNode) Sub(node2 *DateNode) (min Duration, max Duration, errs err
 }
 
 func (node *DateNode) Warnings() Warnings {
+	// A date that does not exist has nothing to warn about. It would
+	// otherwise produce a warning that cannot be described.
+	if node == nil {
+		return nil
+	}
+
 	if !node.IsValid() {
 		return Warnings{
 			NewUnparsableDateWarning(node),
